@@ -26,7 +26,9 @@ use metrique::unit_of_work::metrics;
 use metrique::{CloseValue, InflectableEntry, RootEntry};
 use metrique_writer::entry::WithGlobalDimensions;
 use metrique_writer::unit::{self, UnitTag, WithUnit};
+use metrique_writer::format::{Format, FormatExt};
 use metrique_writer::value::{
+    FormattedValue, ValueFormatter,
     Distribution, FlagConstructor, ForceFlag, Mean, MetricOptions, WithDimension, WithDimensions,
 };
 use metrique_writer::{
@@ -237,6 +239,30 @@ impl DynValue for RefLV {
     fn write_dyn(&self, w: &mut dyn DynVW) {
         let r: &Erased = &self.0;
         <&Erased as Value>::write(&r, FromDynVW(w))
+    }
+}
+/// containers reached through a ValueFormatter lifted over them (value/formatter.rs); the formatter
+/// itself writes the contained value unchanged
+struct Pass;
+impl ValueFormatter<Erased> for Pass {
+    fn format_value(writer: impl ValueWriter, value: &Erased) {
+        value.write(writer)
+    }
+}
+struct FmtLV(&'static str, Erased);
+impl DynValue for FmtLV {
+    fn write_dyn(&self, w: &mut dyn DynVW) {
+        let e = self.1.clone();
+        let w = FromDynVW(w);
+        match self.0 {
+            "FmtSome" => FormattedValue::<Option<Erased>, Pass>::new(&Some(e)).write(w),
+            "FmtNone" => FormattedValue::<Option<Erased>, Pass>::new(&Option::None).write(w),
+            "FmtBox" => FormattedValue::<Box<Erased>, Pass>::new(&Box::new(e)).write(w),
+            "FmtArc" => FormattedValue::<Arc<Erased>, Pass>::new(&Arc::new(e)).write(w),
+            "FmtCow" => FormattedValue::<Cow<'_, Erased>, Pass>::new(&Cow::Borrowed(&self.1)).write(w),
+            "FmtRef" => FormattedValue::<&Erased, Pass>::new(&&self.1).write(w),
+            other => panic!("unknown formatter wrapper {other}"),
+        }
     }
 }
 struct CowBorrowLV(Erased);
@@ -493,6 +519,12 @@ fn apply_value_wrapper(w: &J, pos: usize, inner: DynV) -> DynV {
             }
         }
         "Ref" => Arc::new(RefLV(e)),
+        "FmtSome" => Arc::new(FmtLV("FmtSome", e)),
+        "FmtNone" => Arc::new(FmtLV("FmtNone", e)),
+        "FmtBox" => Arc::new(FmtLV("FmtBox", e)),
+        "FmtArc" => Arc::new(FmtLV("FmtArc", e)),
+        "FmtCow" => Arc::new(FmtLV("FmtCow", e)),
+        "FmtRef" => Arc::new(FmtLV("FmtRef", e)),
         "Unit" => {
             let (f, t) = (w["from"].as_str().unwrap(), w["to"].as_str().unwrap());
             wrap_unit_by_name(f, t, inner).unwrap_or_else(|| panic!("no conversion {f} -> {t}"))
@@ -662,6 +694,13 @@ impl EntryIoStream for Capture<'_, '_> {
         Ok(())
     }
 }
+/// the same as a Format (format.rs implements Format for MergeGlobals / MergeGlobalDimensions)
+struct CaptureFmt<'c, 'w>(Capture<'c, 'w>);
+impl Format for CaptureFmt<'_, '_> {
+    fn format(&mut self, entry: &impl Entry, _output: &mut impl std::io::Write) -> Result<(), IoStreamError> {
+        self.0.next(entry)
+    }
+}
 /// entry -> entry transformation realised by a stream wrapper in front of a capturing stream
 struct StreamL {
     inner: ErasedE,
@@ -671,6 +710,8 @@ enum StreamKind {
     MergeGlobals(ErasedE),
     GlobalDims(Vec<(String, String)>, HashSet<CowStr>),
     FlagA,
+    MergeGlobalsFmt(ErasedE),
+    GlobalDimsFmt(Vec<(String, String)>, HashSet<CowStr>),
 }
 impl StreamL {
     fn run(&self, w: Option<&mut dyn DynEW>) -> Vec<SampleGroupElement> {
@@ -695,6 +736,18 @@ impl StreamL {
             }
             StreamKind::FlagA => {
                 ForceFlag::<_, FlagA>::from(cap).next(&self.inner).unwrap();
+            }
+            StreamKind::MergeGlobalsFmt(g) => {
+                CaptureFmt(cap).merge_globals(g.clone()).format(&self.inner, &mut std::io::sink()).unwrap();
+            }
+            StreamKind::GlobalDimsFmt(ds, deny) => {
+                let dims = ds.iter().map(|(k, v)| (CowStr::from(k.clone()), CowStr::from(v.clone())));
+                let out = &mut std::io::sink();
+                match ds.len() {
+                    0 => CaptureFmt(cap).merge_global_dimensions::<0>(dims.collect(), Some(deny.clone())).format(&self.inner, out).unwrap(),
+                    1 => CaptureFmt(cap).merge_global_dimensions::<1>(dims.collect(), Some(deny.clone())).format(&self.inner, out).unwrap(),
+                    _ => CaptureFmt(cap).merge_global_dimensions::<2>(dims.collect(), Some(deny.clone())).format(&self.inner, out).unwrap(),
+                }
             }
         }
         assert_eq!(n, 1, "stream wrapper handed on {n} entries instead of 1");
@@ -830,6 +883,8 @@ fn apply_entry_wrapper(w: &J, pos: usize, e: ErasedE, g: &ErasedE) -> ErasedE {
             _ => layer_e(WithGlobalDimensions::<_, 2>::new_with_global_dimensions(e, ds, deny)),
         },
         "GDimsStream" => ErasedE(Arc::new(StreamL { inner: e, kind: StreamKind::GlobalDims(ds, deny) })),
+        "GDimsFormat" => ErasedE(Arc::new(StreamL { inner: e, kind: StreamKind::GlobalDimsFmt(ds, deny) })),
+        "MergeFormat" => ErasedE(Arc::new(StreamL { inner: e, kind: StreamKind::MergeGlobalsFmt(g.clone()) })),
         "EDims" => match ds.len() {
             1 => layer_e(WithDimension::new(e, ds[0].0.clone(), ds[0].1.clone())),
             _ => layer_e(WithDimensions::<_, 2>::new_with_dimensions(e, ds)),
@@ -1006,7 +1061,7 @@ dispatch_subset_pairs!(run_full_by_name, run_full, &[usize], Vec<J>; Kilobyte);
 #[inline(never)]
 fn run_time<F: UnitTag + Convert<T>, T: UnitTag>(mags: &[usize]) -> Vec<J>
 where
-    unit::Millisecond: Convert<F>,
+    <Duration as MetricValue>::Unit: Convert<F>,
 {
     let mut out = vec![];
     for &i in mags {
